@@ -13,6 +13,6 @@ Next == depth < MaxDepth /\ \E b \in BreaksAfter(last, mm) : Break(b)
 Spec == Init /\ [][Next]_vars
 TemplatesWellFormed == depth = 0 => WellFormed(mm)
 BreakViolatesItsRule == depth > 0 => last \in Violated(mm)
-\* every rule has at least one mutation on some template (checked on the initial states)
-EveryRuleCanBeBroken == depth = 0 => \A r \in RuleNames : \E tm \in Templates : \E b \in Breaks(tm) : b.rule = r
+\* every rule has at least one mutation on some template (a constant-level fact, checked once)
+ASSUME EveryRuleCanBeBroken == \A r \in RuleNames : \E tm \in Templates : \E b \in Breaks(tm) : b.rule = r
 ====
